@@ -16,6 +16,8 @@ ARCSEC = math.pi / 648000.0
 
 
 def _f(x):
+    if isinstance(x, str) and x in ("nan", "inf", "-inf"):      # non-finite outputs travel as these strings
+        return float(x)
     return float(Fraction(x))
 
 
@@ -43,6 +45,152 @@ def _close_arr(got, exp, scale=None):
     if d.ravel()[i] > TOL * s:
         return False, f"entry {np.unravel_index(i, d.shape)}: got {got.ravel()[i]!r}, expected {exp.ravel()[i]!r}"
     return True, ""
+
+
+# ======================================================================================================
+# Round-5/6 hardening (DESIGN §14): layouts, exact power-of-two scaling, scribbling, configuration
+# ======================================================================================================
+LAYOUTS_2D = ("F", "T", "strided", "neg", "readonly", "window")
+LAYOUTS_1D = ("strided", "neg", "readonly", "window")
+CONF_DIAG = ("general", "inversion", "no_regularization_add_to_curvature_diag_value")
+
+
+def _layout(a, how):
+    """an equal-valued ndarray in another memory layout / with other flags (R5-C): Fortran order, the transposed
+    view of a C array, a strided slice of a larger buffer with junk between the entries, negative strides, a
+    window into a padded buffer, read-only."""
+    a = np.asarray(a)
+    if not how or how == "C":
+        return a
+    if how == "F":
+        return np.asfortranarray(a)
+    if how == "T":
+        return np.ascontiguousarray(a.T).T
+    if how == "strided":
+        big = np.full(tuple(2 * s + 1 for s in a.shape), 7, dtype=a.dtype)
+        sl = tuple(slice(1, None, 2) for _ in a.shape)
+        big[sl] = a
+        return big[sl]
+    if how == "neg":
+        rev = (slice(None, None, -1),) * a.ndim
+        return np.ascontiguousarray(a[rev])[rev]
+    if how == "window":
+        big = np.full(tuple(s + 2 for s in a.shape), 7, dtype=a.dtype)
+        sl = tuple(slice(1, -1) for _ in a.shape)
+        big[sl] = a
+        return big[sl]
+    if how == "readonly":
+        b = a.copy()
+        b.setflags(write=False)
+        return b
+    raise ValueError(f"unknown layout {how}")
+
+
+def _ldexp(a, k):
+    """a * 2**k, exactly (real or complex ndarray; any integer k, also beyond the range of 2.0**k)"""
+    a = np.asarray(a)
+    if k == 0:
+        return a
+    if np.iscomplexobj(a):
+        return np.ldexp(a.real, k) + 1j * np.ldexp(a.imag, k)
+    return np.ldexp(a.astype(float), k)
+
+
+def _scale_q(v, k):
+    """the "p/q" string of v * 2**k (exact)"""
+    f = Fraction(v)
+    return q(f * (Fraction(2) ** k))
+
+
+def _arrays_behind(o):
+    """the ndarrays behind an object the API returned or accepted"""
+    out = []
+    if o is None:
+        return out
+    if isinstance(o, np.ndarray):
+        out.append(o)
+    else:
+        a = getattr(o, "_array", None)
+        if isinstance(a, np.ndarray):
+            out.append(a)
+        for name in ("ordered_1d", "weight_list_ordered_1d"):
+            b = getattr(o, name, None)
+            if isinstance(b, np.ndarray):
+                out.append(b)
+    return out
+
+
+def _scribble_arrays(keep, mode):
+    """overwrite IN PLACE every array in `keep` (what the API returned, what it accepted, what the objects hold):
+    nothing built afterwards from fresh inputs may notice."""
+    seen, n = set(), 0
+    for o in keep:
+        for a in _arrays_behind(o):
+            if id(a) in seen or a.size == 0:
+                continue
+            seen.add(id(a))
+            try:
+                if a.dtype == bool:
+                    np.logical_not(a, out=a)
+                elif mode == "nan" and a.dtype.kind in "fc":
+                    a[...] = np.nan
+                elif mode == "add":
+                    a += 1
+                else:
+                    a *= -3
+                    a += 5
+                n += 1
+            except (ValueError, TypeError):      # read-only buffer
+                pass
+    return n
+
+
+def _try(f):
+    try:
+        return f()
+    except Exception:
+        return None
+
+
+class _Conf:
+    """set configuration values for the duration of a block; ALWAYS restored (also on exceptions)"""
+
+    def __init__(self, values=None):
+        self.values = dict(values or {})       # {(section-file, section, key): value}
+        self.old = {}
+
+    def set(self, path, value):
+        from autoconf import conf
+
+        sec = conf.instance[path[0]][path[1]]
+        if path not in self.old:
+            self.old[path] = sec[path[2]]
+        sec[path[2]] = value
+
+    def __enter__(self):
+        try:
+            for path, value in self.values.items():
+                self.set(tuple(path), value)
+        except Exception:
+            self.__exit__()
+            raise
+        return self
+
+    def __exit__(self, *a):
+        from autoconf import conf
+
+        for path, value in self.old.items():
+            conf.instance[path[0]][path[1]][path[2]] = value
+        self.old = {}
+        return False
+
+
+DECOY_CONF = {
+    "flip_for_ds9": (("general", "fits", "flip_for_ds9"), True),
+    "positive_only": (("general", "inversion", "use_positive_only_solver"), False),
+    "check_reconstruction": (("general", "inversion", "check_reconstruction"), False),
+    "profiling_repeats": (("general", "profiling", "repeats"), 2),
+}
 
 
 # ======================================================================================================
@@ -642,6 +790,10 @@ class C13(PropertyCheck):
             yield self._history_transformer(rng)
         for i in range(350 if tier == "quick" else 2500):
             yield self._history_normal(rng)
+        # round-5/6 (DESIGN §14): decades, near-degenerate worlds, layouts, option crossing, ownership and
+        # configuration histories, always-on large sizes — drawn from their own generator so that the streams
+        # above stay what they were for a given seed
+        yield from self._generate_r5(tier, random.Random(rng.randrange(1 << 62)))
 
     # ------------------------------------------------------------------ implementation
     def _mask(self, aa, case):
@@ -649,175 +801,302 @@ class C13(PropertyCheck):
         mb = np.array([c == "1" for c in mj["bits"]], dtype=bool).reshape(mj["h"], mj["w"])
         sy, sx = (_f(v) for v in case["pixel_scales"])
         oy, ox = (_f(v) for v in case["origin"])
-        return aa.Mask2D(mask=mb, pixel_scales=(sy, sx), origin=(oy, ox))
+        how = (case.get("feed") or {}).get("mask")
+        if not how:
+            return aa.Mask2D(mask=mb, pixel_scales=(sy, sx), origin=(oy, ox))
+        # R5-C: the same mask reaching the constructor in another container / layout / by another route
+        ps, org = (sy, sx), (oy, ox)
+        for flag in how.split("+")[1:]:
+            if flag == "scalar_scale" and sy == sx:
+                ps = sy
+            elif flag == "int_scales" and sy == int(sy) and sx == int(sx):
+                ps = (int(sy), int(sx))
+            elif flag == "int_origin" and oy == int(oy) and ox == int(ox):
+                org = (int(oy), int(ox))
+            elif flag == "list_scales":
+                ps = [sy, sx]
+        base = how.split("+")[0]
+        if base == "list":
+            return aa.Mask2D(mask=mb.tolist(), pixel_scales=ps, origin=org)
+        if base in LAYOUTS_2D:
+            return aa.Mask2D(mask=_layout(mb, base), pixel_scales=ps, origin=org)
+        if base == "invert":
+            return aa.Mask2D(mask=~mb, pixel_scales=ps, origin=org, invert=True)
+        if base == "all_false" and not mb.any():
+            return aa.Mask2D.all_false(shape_native=(mj["h"], mj["w"]), pixel_scales=ps, origin=org)
+        if base == "from_mask":       # a mask built from a mask of the same geometry
+            m0 = aa.Mask2D(mask=mb, pixel_scales=(sy, sx), origin=(oy, ox))
+            return aa.Mask2D(mask=m0, pixel_scales=ps, origin=org)
+        if base == "from_mask_other":  # ... from a mask with ANOTHER geometry: the explicit arguments win
+            m0 = aa.Mask2D(mask=mb, pixel_scales=(2.0 * sy, 0.5 * sx), origin=(oy + 3.0, ox - 2.0))
+            return aa.Mask2D(mask=m0, pixel_scales=ps, origin=org)
+        if base == "from_mask_default_origin" and oy == 0 and ox == 0:
+            m0 = aa.Mask2D(mask=mb, pixel_scales=(sy, sx), origin=(1.5, -2.25))
+            if "+explicit" in how:
+                return aa.Mask2D(mask=m0, pixel_scales=ps, origin=(0.0, 0.0))
+            return aa.Mask2D(mask=m0, pixel_scales=ps)
+        return aa.Mask2D(mask=mb, pixel_scales=ps, origin=org)
 
     # -- feeding helpers (dtype / container variants; the real numbers are unchanged)
     def _uv_in(self, case):
         feed = case.get("feed") or {}
-        if feed.get("uv_dtype") == "int64":
-            return np.array([[int(Fraction(a)), int(Fraction(b))] for a, b in case["uv"]],
-                            dtype=np.int64).reshape(-1, 2)
-        return np.array([[_f(a), _f(b)] for a, b in case["uv"]], dtype=float).reshape(-1, 2)
+        dt = feed.get("uv_dtype")
+        if dt in ("int64", "int32"):
+            a = np.array([[int(Fraction(a)), int(Fraction(b))] for a, b in case["uv"]],
+                         dtype=np.int64 if dt == "int64" else np.int32).reshape(-1, 2)
+        else:
+            a = np.array([[_f(a), _f(b)] for a, b in case["uv"]], dtype=float).reshape(-1, 2)
+            if dt == "float32" and np.array_equal(a.astype(np.float32).astype(float), a):
+                a = a.astype(np.float32)
+        return _layout(a, feed.get("uv_layout"))
 
     def _scribble(self, case, uv_in):
         """overwrite the CALLER's baseline array after construction: nothing may change."""
-        if (case.get("feed") or {}).get("scribble_uv") and uv_in.size:
+        if (case.get("feed") or {}).get("scribble_uv") and uv_in.size and uv_in.flags.writeable:
             uv_in *= -3
             uv_in += 12345
 
-    def _image_in(self, case):
-        kind = (case.get("feed") or {}).get("image", "float")
-        if kind == "int64":
-            return np.array([int(Fraction(v)) for v in case["image"]], dtype=np.int64)
+    def _image_in(self, case, flat=False):
+        """`flat`: only 1-D forms (the util functions take a plain 1-D array)"""
+        feed = case.get("feed") or {}
+        kind = feed.get("image", "float")
+        lay = feed.get("image_layout")
         if kind == "pyint_list":
             return [int(Fraction(v)) for v in case["image"]]
         if kind == "float_list":
             return [_f(v) for v in case["image"]]
-        if kind == "float32":
-            return np.array([_f(v) for v in case["image"]], dtype=np.float32)
-        return np.array([_f(v) for v in case["image"]], dtype=float)
+        if kind in ("int64", "int32"):
+            a = np.array([int(Fraction(v)) for v in case["image"]], dtype=np.int64 if kind == "int64" else np.int32)
+        elif kind == "float32":
+            a = np.array([_f(v) for v in case["image"]], dtype=np.float32)
+        else:
+            a = np.array([_f(v) for v in case["image"]], dtype=float)
+        if lay in LAYOUTS_1D:
+            return _layout(a, lay)
+        if lay and lay.startswith("native") and not flat and "mask" in case:
+            # the (H, W) native form: values at the unmasked pixels, junk under the mask (which the constructor zeroes)
+            mj = case["mask"]
+            nat = np.full(mj["h"] * mj["w"], 9.75 if a.dtype.kind == "f" else 9, dtype=a.dtype)
+            nat[[i for i, b in enumerate(mj["bits"]) if b == "0"]] = a
+            nat = nat.reshape(mj["h"], mj["w"])
+            if lay == "native_list":
+                return nat.tolist()
+            return _layout(nat, lay.partition(":")[2])
+        return a
 
     def _matrix_in(self, rows, n_cols, kind):
-        if kind == "int64":
-            return np.array([[int(Fraction(v)) for v in r] for r in rows], dtype=np.int64).reshape(-1, n_cols)
-        a = np.array([[_f(v) for v in r] for r in rows], dtype=float).reshape(-1, n_cols)
-        return a.astype(np.float32) if kind == "float32" else a
+        kind, _, lay = (kind or "float").partition("|")
+        if kind in ("int64", "int32") and all(Fraction(v).denominator == 1 for r in rows for v in r):
+            a = np.array([[int(Fraction(v)) for v in r] for r in rows],
+                         dtype=np.int64 if kind == "int64" else np.int32).reshape(-1, n_cols)
+        else:
+            a = np.array([[_f(v) for v in r] for r in rows], dtype=float).reshape(-1, n_cols)
+            if kind == "float32":
+                a = a.astype(np.float32)
+        return _layout(a, lay)
 
     def _vis_in(self, aa, pairs, kind, cls=None):
         cls = cls or aa.Visibilities
+        kind, _, lay = (kind or "complex").partition("|")
         if kind == "list" and pairs:
             return cls(visibilities=[complex(_f(a), _f(b)) for a, b in pairs])
         if kind == "pairs" and pairs:
-            return cls(visibilities=np.array([[_f(a), _f(b)] for a, b in pairs], dtype=float))
-        return cls(visibilities=np.array([complex(_f(a), _f(b)) for a, b in pairs], dtype=complex))
+            return cls(visibilities=_layout(np.array([[_f(a), _f(b)] for a, b in pairs], dtype=float), lay))
+        a = np.array([complex(_f(a), _f(b)) for a, b in pairs], dtype=complex)
+        if kind == "complex64" and np.array_equal(a.astype(np.complex64).astype(complex), a):
+            a = a.astype(np.complex64)
+        return cls(visibilities=_layout(a, lay))
 
-    def _run_plain(self, case, raw=False):
+    PRELOAD_VALS = {"bool": (True, False), "np": (np.True_, np.False_), "int": (1, 0)}
+    ADJOINT_VALS = {"false": False, "zero": 0, "none": None, "true": True, "np_false": np.False_}
+
+    def _preload_value(self, feed, preload):
+        t, f = self.PRELOAD_VALS[feed.get("preload_vals", "bool")]
+        return t if preload else f
+
+    def _settings(self, aa, case):
+        """SettingsInversion for a normal-equation case; feed["settings_kw"]: further constructor options (R5-F:
+        they must not change the three observed quantities)"""
+        feed = case.get("feed") or {}
+        kw = dict(feed.get("settings_kw") or {})
+        kw.setdefault("use_w_tilde", False)
+        if not case["default_settings"]:
+            kw["no_regularization_add_to_curvature_diag_value"] = _f(case["diag_value"])
+        elif feed.get("diag_none_kw"):        # the default passed explicitly
+            kw["no_regularization_add_to_curvature_diag_value"] = None
+        return aa.SettingsInversion(**kw)
+
+    def _inv_kw(self, aa, case):
+        ik = (case.get("feed") or {}).get("inv_kw") or {}
+        kw = {}
+        if ik.get("run_time_dict") == "empty":
+            kw["run_time_dict"] = {}
+        elif ik.get("run_time_dict") == "none":
+            kw["run_time_dict"] = None
+        if ik.get("preloads") == "fresh":
+            kw["preloads"] = aa.Preloads()
+        return kw
+
+    def _run_plain(self, case, raw=False, keep=None):
         """`raw`: leave the outputs as numpy arrays (large cases: judged in memory by the oracle, summarised by
-        numpy when printed) instead of exact "p/q" strings"""
+        numpy when printed) instead of exact "p/q" strings.  `keep`: a list that receives every array / structure
+        the API accepted or returned (ownership histories scribble over them afterwards)."""
         aa = load_autoarray()
         feed = case.get("feed") or {}
         kind = case["kind"]
         ql, cl, cm = (qlist, _cx_list, _cx_mat) if not raw else (np.asarray, np.asarray, np.asarray)
+        K = keep if keep is not None else []
         if kind == "transformer":
             mask = self._mask(aa, case)
-            image = aa.Array2D(values=self._image_in(case), mask=mask)
+            values = self._image_in(case)
+            image = aa.Array2D(values=values, mask=mask)
+            if feed.get("image_layout") == "from_array2d":
+                image = aa.Array2D(values=image, mask=mask)
             vis = self._vis_in(aa, case["vis"], feed.get("vis", "complex"))
             M = self._matrix_in(case["M"], case["n_cols"], feed.get("M", "float"))
+            K += [mask, values, image, vis, M]
             obs = {}
-            for preload in (True, False):
+            post = [lambda: mask.derive_grid.unmasked, lambda: mask.derive_indexes.native_for_slim,
+                    lambda: vis.in_array, lambda: image.native]
+            order = (True, False) if not feed.get("preload_order_rev") else (False, True)
+            for preload in order:
                 uv_in = self._uv_in(case)
                 if preload and feed.get("preload_kw") == "default":
                     t = aa.TransformerDFT(uv_wavelengths=uv_in, real_space_mask=mask)
                 else:
                     t = aa.TransformerDFT(uv_wavelengths=uv_in, real_space_mask=mask,
-                                          preload_transform=preload)
+                                          preload_transform=self._preload_value(feed, preload))
                 self._scribble(case, uv_in)
-                obs["preload_" + str(preload).lower()] = self._read_transformer(t, image, vis, M, case, raw=raw)
+                K += [uv_in, t.uv_wavelengths, t.grid, getattr(t, "preload_real_transforms", None),
+                      getattr(t, "preload_imag_transforms", None)]
+                obs["preload_" + str(preload).lower()] = self._read_transformer(t, image, vis, M, case, raw=raw,
+                                                                               keep=keep)
+            if keep is not None:     # further public reads that return arrays (after the observation)
+                K += [_try(f) for f in post]
             return obs
         uv = self._uv_in(case)
         if kind == "util":
             tu = aa.util.transformer
-            grid = np.array([[_f(a), _f(b)] for a, b in case["grid"]]).reshape(-1, 2)
-            image = np.asarray(self._image_in(case))
+            grid = _layout(np.array([[_f(a), _f(b)] for a, b in case["grid"]]).reshape(-1, 2),
+                           feed.get("grid_layout"))
+            image = np.asarray(self._image_in(case, flat=True))
             ints = feed.get("M") == "int64"
-            vis2 = np.array([[(int(Fraction(a)) if ints else _f(a)), (int(Fraction(b)) if ints else _f(b))]
-                             for a, b in case["vis"]]).reshape(-1, 2)
+            vis2 = _layout(np.array([[(int(Fraction(a)) if ints else _f(a)), (int(Fraction(b)) if ints else _f(b))]
+                                     for a, b in case["vis"]]).reshape(-1, 2), feed.get("vis2_layout"))
             M = self._matrix_in(case["M"], case["n_cols"], feed.get("M", "float"))
             re = tu.preload_real_transforms(grid_radians=grid, uv_wavelengths=uv)
             im = tu.preload_imag_transforms(grid_radians=grid, uv_wavelengths=uv)
+            outs = [tu.visibilities_via_preload_jit_from(image_1d=image, preloaded_reals=re, preloaded_imags=im),
+                    tu.transformed_mapping_matrix_via_preload_jit_from(mapping_matrix=M, preloaded_reals=re,
+                                                                       preloaded_imags=im),
+                    tu.image_via_jit_from(n_pixels=grid.shape[0], grid_radians=grid, uv_wavelengths=uv,
+                                          visibilities=vis2),
+                    tu.visibilities_jit(image_1d=image, grid_radians=grid, uv_wavelengths=uv),
+                    tu.transformed_mapping_matrix_jit(mapping_matrix=M, grid_radians=grid, uv_wavelengths=uv),
+                    tu.image_via_jit_from(n_pixels=grid.shape[0], grid_radians=grid, uv_wavelengths=uv,
+                                          visibilities=vis2)]
+            K += [uv, grid, image, vis2, M, re, im, *outs]
             return {
-                "preload_true": {
-                    "visibilities": cl(tu.visibilities_via_preload_jit_from(
-                        image_1d=image, preloaded_reals=re, preloaded_imags=im)),
-                    "transformed": cm(tu.transformed_mapping_matrix_via_preload_jit_from(
-                        mapping_matrix=M, preloaded_reals=re, preloaded_imags=im)),
-                    "image": ql(tu.image_via_jit_from(n_pixels=grid.shape[0], grid_radians=grid,
-                                                          uv_wavelengths=uv, visibilities=vis2)),
-                },
-                "preload_false": {
-                    "visibilities": cl(tu.visibilities_jit(
-                        image_1d=image, grid_radians=grid, uv_wavelengths=uv)),
-                    "transformed": cm(tu.transformed_mapping_matrix_jit(
-                        mapping_matrix=M, grid_radians=grid, uv_wavelengths=uv)),
-                    "image": ql(tu.image_via_jit_from(n_pixels=grid.shape[0], grid_radians=grid,
-                                                          uv_wavelengths=uv, visibilities=vis2)),
-                },
+                "preload_true": {"visibilities": cl(outs[0]), "transformed": cm(outs[1]), "image": ql(outs[2])},
+                "preload_false": {"visibilities": cl(outs[3]), "transformed": cm(outs[4]), "image": ql(outs[5])},
             }
         # normal equations
         from autoarray.inversion.inversion.dataset_interface import DatasetInterface
 
         mask = self._mask(aa, case)
         data = self._vis_in(aa, case["data"], feed.get("vis", "complex"))
-        noise = self._vis_in(aa, case["noise"], feed.get("vis", "complex"), aa.VisibilitiesNoiseMap)
+        noise = self._vis_in(aa, case["noise"], feed.get("noise_vis") or feed.get("vis", "complex"),
+                             aa.VisibilitiesNoiseMap)
         objs = []
         for o in case["objs"]:
-            mk = feed.get("M", "float")
-            if mk == "int64" and not all(Fraction(v).denominator == 1 for r in o["M"] for v in r):
-                mk = "float"
-            M = self._matrix_in(o["M"], o["n_cols"], mk)
+            M = self._matrix_in(o["M"], o["n_cols"], feed.get("M", "float"))
             reg = aa.m.MockRegularization(regularization_matrix=np.eye(o["n_cols"])) if o["has_reg"] else None
             if o["cls"] == "mapper":
                 objs.append(aa.m.MockMapper(mapping_matrix=M, parameters=o["n_cols"], regularization=reg,
                                             edge_pixel_list=[]))
             else:
                 objs.append(aa.m.MockLinearObj(mapping_matrix=M, parameters=o["n_cols"], regularization=reg))
-        if case["default_settings"]:
-            settings = aa.SettingsInversion(use_w_tilde=False)
-        else:
-            settings = aa.SettingsInversion(
-                use_w_tilde=False, no_regularization_add_to_curvature_diag_value=_f(case["diag_value"]))
+            K.append(M)
+        omit_settings = bool(feed.get("settings_omitted")) and case["default_settings"] and not case["via_factory"]
+        settings = None if omit_settings else self._settings(aa, case)
+        ikw = self._inv_kw(aa, case)
+        pv = self._preload_value(feed, case["preload"])
         if case["via_factory"]:
             ds = aa.Interferometer(data=data, noise_map=noise, uv_wavelengths=uv, real_space_mask=mask,
                                    transformer_class=aa.TransformerDFT)
             if ds.transformer.preload_transform != case["preload"]:
-                ds.transformer = aa.TransformerDFT(uv_wavelengths=uv, real_space_mask=mask,
-                                                   preload_transform=case["preload"])
+                ds.transformer = aa.TransformerDFT(uv_wavelengths=uv, real_space_mask=mask, preload_transform=pv)
             self._scribble(case, uv)
-            inv = aa.Inversion(dataset=ds, linear_obj_list=objs, settings=settings)
+            inv = aa.Inversion(dataset=ds, linear_obj_list=objs, settings=settings, **ikw)
         else:
-            t = aa.TransformerDFT(uv_wavelengths=uv, real_space_mask=mask, preload_transform=case["preload"])
+            t = aa.TransformerDFT(uv_wavelengths=uv, real_space_mask=mask, preload_transform=pv)
             self._scribble(case, uv)
             ds = DatasetInterface(data=data, noise_map=noise, transformer=t)
-            inv = aa.InversionInterferometerMapping(dataset=ds, linear_obj_list=objs, settings=settings)
-        return self._read_normal(inv, raw=raw)
+            if omit_settings:
+                inv = aa.InversionInterferometerMapping(dataset=ds, linear_obj_list=objs, **ikw)
+            else:
+                inv = aa.InversionInterferometerMapping(dataset=ds, linear_obj_list=objs, settings=settings, **ikw)
+        tr = ds.transformer
+        K += [mask, data, noise, uv, tr.uv_wavelengths, tr.grid, getattr(tr, "preload_real_transforms", None),
+              getattr(tr, "preload_imag_transforms", None)]
+        obs = self._read_normal(inv, raw=raw, keep=keep)
+        if keep is not None:
+            K += [_try(f) for f in (lambda: mask.derive_grid.unmasked, lambda: data.in_array, lambda: noise.in_array,
+                                    lambda: inv.mapping_matrix, lambda: inv.operated_mapping_matrix_list[0])]
+        return obs
 
     READS_T = ("image", "visibilities", "transformed")
     READS_N = ("operated_mapping_matrix", "data_vector", "curvature_matrix", "no_regularization_index_list")
 
-    def _read_transformer(self, t, image, vis, M, case, order=None, pw=0, raw=False):
+    def _read_transformer(self, t, image, vis, M, case, order=None, pw=0, raw=False, keep=None):
         """the observed reads of one transformer, in the given order; `pw`: the linear inputs were fed scaled by
         2**-pw (exact), the outputs are scaled back (exact) so that they compare with the unscaled world."""
         s = 2.0 ** pw
         ql, cl, cm = (qlist, _cx_list, _cx_mat) if not raw else (np.asarray, np.asarray, np.asarray)
+        K = keep if keep is not None else []
+        adj = (case.get("feed") or {}).get("adjoint")
         out = {}
-        for name in (order or self.READS_T):
+        for name in (order or (case.get("feed") or {}).get("read_order") or self.READS_T):
             if name == "image":
-                img = t.image_from(visibilities=vis)
+                if adj in self.ADJOINT_VALS:
+                    img = t.image_from(visibilities=vis, use_adjoint_scaling=self.ADJOINT_VALS[adj])
+                else:
+                    img = t.image_from(visibilities=vis)
                 out["image"] = ql(np.array(img.slim).ravel() * s)
                 out["image_native"] = ql(np.array(img.native).ravel() * s)
+                K.append(img)
             elif name == "visibilities":
-                out["visibilities"] = cl(np.asarray(t.visibilities_from(image=image)) * s)
+                v = t.visibilities_from(image=image)
+                out["visibilities"] = cl(np.asarray(v) * s)
+                K.append(v)
             elif name == "transformed":
-                out["transformed"] = cm(np.asarray(t.transform_mapping_matrix(mapping_matrix=M)).reshape(
-                    len(case["uv"]), case["n_cols"]) * s)
+                tm = t.transform_mapping_matrix(mapping_matrix=M)
+                out["transformed"] = cm(np.asarray(tm).reshape(len(case["uv"]), case["n_cols"]) * s)
+                K.append(tm)
         g = np.array(t.grid).reshape(-1, 2)
         out["grid"] = g if raw else [qlist(p) for p in g]
         return out
 
-    def _read_normal(self, inv, order=None, raw=False):
+    def _read_normal(self, inv, order=None, raw=False, keep=None):
         if type(inv).__name__ != "InversionInterferometerMapping":
             return {"err": "wrong_inversion_class", "msg": type(inv).__name__}
         ql, cm, qm = (qlist, _cx_mat, qmat) if not raw else (np.asarray, np.asarray, np.asarray)
         out = {}
         for name in (order or self.READS_N):
             if name == "operated_mapping_matrix":
-                out[name] = cm(inv.operated_mapping_matrix)
+                v = inv.operated_mapping_matrix
+                out[name] = cm(v)
             elif name == "data_vector":
-                out[name] = ql(np.array(inv.data_vector))
+                v = inv.data_vector
+                out[name] = ql(np.array(v))
             elif name == "curvature_matrix":
-                out[name] = qm(np.array(inv.curvature_matrix))
+                v = inv.curvature_matrix
+                out[name] = qm(np.array(v))
             elif name == "no_regularization_index_list":
+                v = None
                 out[name] = [int(i) for i in inv.no_regularization_index_list]
+            if keep is not None and v is not None:
+                keep.append(v)
         return out
 
     # ------------------------------------------------------------------ model
@@ -1052,7 +1331,26 @@ class C13(PropertyCheck):
                               for st in case["steps"]]}
         if kind == "large":
             return self._run_plain(self._expand_large(case), raw=True)
+        if kind == "decades":
+            return self._run_decades(case)
+        if kind == "own":
+            return self._run_own(case)
+        if kind == "config":
+            return self._run_config(case)
         return self._run_plain(case)
+
+    def _parts(self, case):
+        """new kinds as a list of (ordinary world, key into the observation) pairs: each part is judged like an
+        ordinary case (model requests, model observation, oracle)"""
+        kind = case["kind"]
+        if kind == "decades":
+            return [(case["world"], None)]
+        if kind == "own":
+            worlds = self._own_worlds(case)
+            return [(worlds[i], ("rounds", j)) for j, i in enumerate(case["rounds"])]
+        if kind == "config":
+            return [(self._config_world(case, j, d), ("steps", j)) for j, d in enumerate(self._config_diags(case))]
+        return None
 
     def model_requests(self, case, impl_obs):
         kind = case["kind"]
@@ -1063,13 +1361,32 @@ class C13(PropertyCheck):
             for st in case["steps"]:
                 out += self._requests_plain(st["world"], None)
             return out
+        parts = self._parts(case)
+        if parts is not None:
+            if kind == "own":   # one set of requests per distinct world; the rounds share them
+                parts = [(w, None) for w in self._own_worlds(case)]
+            out = []
+            for w, _ in parts:
+                out += self._requests_plain(w, None)
+            return out
         return self._requests_plain(case, impl_obs)
 
     def model_obs(self, case, responses):
-        if case["kind"] == "history":
+        kind = case["kind"]
+        if kind == "history":
             per = 2 if case["sub"] == "transformer" else 1
             return {"steps": [self._model_obs_plain(st["world"], responses[i * per:(i + 1) * per])
                               for i, st in enumerate(case["steps"])]}
+        if kind == "decades":
+            return self._model_obs_plain(case["world"], responses)
+        if kind == "own":
+            per = 1 if case["worlds"][0]["kind"] == "normal_eq" else 2
+            mo = [self._model_obs_plain(w, responses[i * per:(i + 1) * per])
+                  for i, w in enumerate(self._own_worlds(case))]
+            return {"rounds": [mo[i] for i in case["rounds"]]}
+        if kind == "config":
+            return {"steps": [self._model_obs_plain(w, responses[j:j + 1])
+                              for j, (w, _) in enumerate(self._parts(case))]}
         return self._model_obs_plain(case, responses)
 
     def oracle(self, case, obs):
@@ -1085,6 +1402,28 @@ class C13(PropertyCheck):
                     return False, (f"history step {i} (how={json.dumps(st.get('how') or {}, sort_keys=True)}) on "
                                    f"reused objects differs from a freshly built object in the same state: {d}")
             return True, ""
+        if kind == "decades":
+            if not isinstance(obs, dict) or ("err" in obs and len(obs) <= 2):
+                return False, f"scaled world did not run: {str(obs)[:300]}"
+            ok, d = self._oracle_plain(case["world"], obs)
+            if not ok:
+                return False, (f"world scaled by exact powers of two {json.dumps(case['dec'], sort_keys=True)} (outputs "
+                               f"scaled back exactly) differs from the unscaled world: {d}")
+            return True, ""
+        if kind in ("own", "config"):
+            top = "rounds" if kind == "own" else "steps"
+            if not isinstance(obs, dict) or top not in obs:
+                return False, f"{kind} history did not run: {str(obs)[:300]}"
+            for j, ((w, _), o) in enumerate(zip(self._parts(case), obs[top])):
+                ok, d = self._oracle_plain(w, o)
+                if not ok:
+                    if kind == "own":
+                        return False, (f"round {j} (world {case['rounds'][j]}; every array accepted / returned in the "
+                                       f"earlier rounds was overwritten in place, mode {case['scribble']}) differs from "
+                                       f"a first evaluation of the same world: {d}")
+                    return False, (f"step {j} ({json.dumps(case['steps'][j], sort_keys=True)}; diagonal value in force "
+                                   f"{w['diag_value']}): {d}")
+            return True, ""
         return self._oracle_plain(case, obs)
 
     def nontrivial(self, case, obs):
@@ -1092,6 +1431,9 @@ class C13(PropertyCheck):
             return self._nontrivial_plain(case["steps"][0]["world"], None)
         if case["kind"] == "large":
             return case["n"] >= 2 and case["k"] >= 2
+        parts = self._parts(case)
+        if parts is not None:
+            return self._nontrivial_plain(parts[0][0], None)
         return self._nontrivial_plain(case, obs)
 
     def theorems_for(self, case):
@@ -1099,6 +1441,9 @@ class C13(PropertyCheck):
             return self._theorems_plain(case["steps"][0]["world"])
         if case["kind"] == "large":
             return self._theorems_plain({"kind": case["sub"]})
+        parts = self._parts(case)
+        if parts is not None:
+            return self._theorems_plain(parts[0][0])
         return self._theorems_plain(case)
 
     def sample_view(self, case):
@@ -1110,8 +1455,660 @@ class C13(PropertyCheck):
             yield from self._shrink_history(case)
         elif kind == "large":
             yield from self._shrink_large(case)
+        elif kind == "decades":
+            yield from self._shrink_decades(case)
+        elif kind == "own":
+            yield from self._shrink_own(case)
+        elif kind == "config":
+            yield from self._shrink_config(case)
         else:
             yield from self._shrink_plain(case)
+
+    # ==================================================================================================
+    # Round-5/6 hardening (DESIGN §14)
+    # ==================================================================================================
+    # ------------------------------------------------------------------ R5-A / R5-E: the decades stream
+    # An ordinary world + one exact power of two per ingredient.  The implementation is fed the SCALED world; its
+    # outputs are scaled back (ldexp: exact) and compared with the model / oracle of the UNSCALED world, so the
+    # comparison tolerance is relative to the scaled magnitude.  Powers of two commute with every rounding of the
+    # code under test (no sums of differently scaled terms are formed), so the expectation is bit-exact apart from
+    # libm pow.
+    DEC_KEYS = ("geo", "image", "vis", "M", "data", "noise")
+
+    def _dec_world(self, w, dec):
+        g = dec.get("geo", 0)
+        ws = dict(w)
+        feed = dict(w.get("feed") or {})
+        sc = lambda v, k: _scale_q(v, k) if k else v
+        if "grid" in w:
+            ws["grid"] = [[sc(a, g), sc(b, g)] for a, b in w["grid"]]
+        else:
+            ws["pixel_scales"] = [sc(v, g) for v in w["pixel_scales"]]
+            ws["origin"] = [sc(v, g) for v in w["origin"]]
+        ws["uv"] = [[sc(a, -g), sc(b, -g)] for a, b in w["uv"]]
+        if g:
+            feed["uv_dtype"] = "float"
+        if w["kind"] == "normal_eq":
+            a, b, c = dec.get("data", 0), dec.get("noise", 0), dec.get("M", 0)
+            ws["data"] = [[sc(x, a), sc(y, a)] for x, y in w["data"]]
+            ws["noise"] = [[sc(x, b), sc(y, b)] for x, y in w["noise"]]
+            ws["objs"] = [{**o, "M": [[sc(v, c) for v in r] for r in o["M"]]} for o in w["objs"]]
+            ws["diag_value"] = sc(w["diag_value"], 2 * (c - b))
+            lin = [a, b, c]
+        else:
+            a, b = dec.get("image", 0), dec.get("vis", 0)
+            cols = dec.get("M_cols") or [dec.get("M", 0)] * w["n_cols"]
+            ws["image"] = [sc(v, a) for v in w["image"]]
+            ws["vis"] = [[sc(x, b), sc(y, b)] for x, y in w["vis"]]
+            ws["M"] = [[sc(v, cols[j]) for j, v in enumerate(r)] for r in w["M"]]
+            if a and feed.get("image") in ("int64", "int32", "pyint_list"):
+                feed["image"] = "float"
+            if abs(a) > 60 and feed.get("image") == "float32":
+                feed["image"] = "float"
+            lin = [a, b, *cols]
+        mk = (feed.get("M") or "float").partition("|")[0]
+        if any(lin) and mk in ("int64", "int32"):
+            feed["M"] = "float"
+        if max(abs(x) for x in lin) > 60 and mk == "float32":
+            feed["M"] = "float"
+        ws["feed"] = feed
+        return ws
+
+    def _run_decades(self, case):
+        w, dec = case["world"], case["dec"]
+        ws = self._dec_world(w, dec)
+        conf = {}
+        if w["kind"] == "normal_eq" and w["default_settings"]:
+            e = 2 * (dec.get("M", 0) - dec.get("noise", 0))
+            if e:      # the default comes from the configuration: scale it there
+                conf[CONF_DIAG] = float(np.ldexp(1.0e-3, e))
+        with _Conf(conf):
+            obs = self._run_plain(ws, raw=True)
+        if "err" in obs:
+            return obs
+        g = dec.get("geo", 0)
+        if w["kind"] == "normal_eq":
+            a, b, c = dec.get("data", 0), dec.get("noise", 0), dec.get("M", 0)
+            return {"operated_mapping_matrix": _cx_mat(_ldexp(obs["operated_mapping_matrix"], -c)),
+                    "data_vector": qlist(_ldexp(obs["data_vector"], -(a + c - 2 * b))),
+                    "curvature_matrix": qmat(_ldexp(obs["curvature_matrix"], -2 * (c - b))),
+                    "no_regularization_index_list": obs["no_regularization_index_list"]}
+        a, b = dec.get("image", 0), dec.get("vis", 0)
+        cols = dec.get("M_cols") or [dec.get("M", 0)] * w["n_cols"]
+        K, C = len(w["uv"]), w["n_cols"]
+        out = {}
+        for key, o in obs.items():
+            T = np.asarray(o["transformed"]).reshape(K, C)
+            T = np.stack([_ldexp(T[:, j], -cols[j]) for j in range(C)], axis=1) if C else T
+            oo = {"visibilities": _cx_list(_ldexp(o["visibilities"], -a)),
+                  "image": qlist(_ldexp(o["image"], -b)),
+                  "transformed": _cx_mat(T.reshape(K, C))}
+            if "image_native" in o:
+                oo["image_native"] = qlist(_ldexp(o["image_native"], -b))
+            if "grid" in o:
+                oo["grid"] = [qlist(p) for p in _ldexp(np.asarray(o["grid"]).reshape(-1, 2), -g)]
+            out[key] = oo
+        return out
+
+    def _dec_power(self, rng, lim=45):
+        k = rng.randint(5, lim)
+        return k if rng.random() < 0.5 else -k
+
+    def _decades_case(self, rng, ext=False):
+        r = rng.random()
+        if r < 0.5:
+            h, w_ = rng.randint(1, 5), rng.randint(1, 5)
+            m, _ = gen.random_mask(rng, h, w_)
+            w = self._transformer_case(rng, m, "w")
+        elif r < 0.65:
+            w = self._util_case(rng, "w")
+        else:
+            w = self._normal_case(rng, self._small_mask(rng, 4), "w")
+        w = {k: v for k, v in w.items() if k != "tag"}
+        neq = w["kind"] == "normal_eq"
+        lin_keys = ("data", "noise", "M") if neq else ("image", "vis", "M")
+        dec = {}
+        if ext:
+            # R5-E: out to ~1e+-150 (squared quantities stay below ~1e300; data*M below 2^900)
+            style = rng.choice(["geo", "one", "all", "noise"] if neq else ["geo", "one", "all"])
+            if style == "geo":
+                dec["geo"] = rng.choice([-400, -150, -100, 100, 150, 400])
+            elif style == "noise":
+                dec["noise"] = rng.choice([-470, -300, -100, 100, 300, 470])
+            elif style == "one":
+                key = rng.choice(lin_keys)
+                lim = [-450, -300, -100, 100, 300, 450] if neq else [-900, -500, -150, 150, 500, 900]
+                dec[key] = rng.choice(lim)
+            else:
+                k = rng.choice([-300, -150, 150, 300] if neq else [-900, -400, -150, 150, 400, 900])
+                for key in lin_keys:
+                    dec[key] = k        # normal equations: data*M = 2^2k, noise^2 = 2^2k: all within range
+            tag = "dec_ext_" + style
+        else:
+            style = rng.choice(["geo", "geo", "all", "one", "one", "mix", "col"])
+            if style == "geo":
+                dec["geo"] = self._dec_power(rng)
+            elif style == "all":
+                k = self._dec_power(rng)
+                for key in lin_keys:
+                    dec[key] = k
+            elif style == "one":
+                dec[rng.choice(lin_keys)] = self._dec_power(rng)
+            elif style == "col" and not neq and w["n_cols"] >= 2:
+                dec["M_cols"] = [self._dec_power(rng) if rng.random() < 0.6 else 0 for _ in range(w["n_cols"])]
+            else:
+                style = "mix"
+                for key in ("geo",) + lin_keys:
+                    if rng.random() < 0.7:
+                        dec[key] = self._dec_power(rng)
+            tag = "dec_" + style
+        return {"tag": tag + "_" + w["kind"], "kind": "decades", "world": w, "dec": dec}
+
+    def _shrink_decades(self, case):
+        dec = case["dec"]
+        for key in list(dec):
+            yield {**case, "dec": {k: v for k, v in dec.items() if k != key}}
+        for key, v in dec.items():
+            if isinstance(v, int) and abs(v) > 8:
+                yield {**case, "dec": {**dec, key: int(v / 2)}}
+        if case["world"]["kind"] == "transformer" and not dec.get("M_cols"):
+            for w2 in self._shrink_plain(case["world"]):
+                yield {**case, "world": w2}
+
+    # ------------------------------------------------------------------ R5-A: nearly degenerate ordinary worlds
+    def _near_case(self, rng):
+        style = rng.choice(["scales", "scales", "noise_uniform", "noise_reim", "far_origin", "far_origin",
+                            "uv_repeat", "image_uniform", "tiny_scales", "huge_scales", "far_grid"])
+        tw = lambda e, j=1: Fraction(1) + Fraction(j, 1 << e)
+        if style == "far_grid":        # util functions on a grid far from (0, 0) radians, nearly coincident points
+            c = self._util_case(rng, "near_far_grid")
+            off = [Fraction(rng.choice([-1, 1]), 1 << rng.randint(1, 6)), Fraction(rng.choice([-1, 1]), 1 << rng.randint(1, 6))]
+            c["grid"] = [qlist([Fraction(a) + off[0], Fraction(b) + off[1]]) for a, b in c["grid"]]
+            B = 64
+            c["uv"] = [qlist([Fraction(rng.randint(-B, B)) + Fraction(rng.randint(0, 3), 4),
+                              Fraction(rng.randint(-B, B))]) for _ in c["uv"]]
+            c["feed"]["uv_dtype"] = "float"
+            return c
+        neq = style.startswith("noise") or (style in ("scales", "far_origin") and rng.random() < 0.35)
+        if neq:
+            c = self._normal_case(rng, self._small_mask(rng, 4), "near")
+        else:
+            h, w_ = rng.randint(1, 5), rng.randint(1, 5)
+            m, _ = gen.random_mask(rng, h, w_)
+            c = self._transformer_case(rng, m, "near", ints=False)
+        c["feed"]["uv_dtype"] = "float"
+        mj = c["mask"]
+
+        def bound_uv(ext_arcsec):
+            # keep |phase| below ~1e3 rad (standing assumption): |u| <= 50 / extent
+            B = max(2, int(min(200000, 50.0 / (ext_arcsec * ARCSEC))))
+            uv = []
+            for a, b in c["uv"]:
+                fa, fb = Fraction(a), Fraction(b)
+                if abs(fa) > B or abs(fb) > B:
+                    fa, fb = Fraction(rng.randint(-B, B)), Fraction(rng.randint(-B, B))
+                uv.append(qlist([fa, fb]))
+            c["uv"] = uv
+
+        if style == "scales":          # nearly square pixels
+            sy = Fraction(c["pixel_scales"][0])
+            c["pixel_scales"] = qlist([sy, sy * tw(rng.choice([20, 24, 28]))] if rng.random() < 0.5 else
+                                      [sy * tw(rng.choice([20, 24, 28])), sy])
+        elif style in ("tiny_scales", "huge_scales"):      # pixel scales far from 1 arcsec (uv chosen to match)
+            f = Fraction(1, 1 << rng.randint(8, 18)) if style == "tiny_scales" else Fraction(1 << rng.randint(6, 14))
+            c["pixel_scales"] = qlist([Fraction(v) * f for v in c["pixel_scales"]])
+            c["origin"] = qlist([Fraction(v) * f for v in c["origin"]])
+            ext = max(abs(_f(c["origin"][0])) + mj["h"] / 2.0 * _f(c["pixel_scales"][0]),
+                      abs(_f(c["origin"][1])) + mj["w"] / 2.0 * _f(c["pixel_scales"][1]))
+            bound_uv(ext)
+        elif style == "far_origin":    # the centre far from (0, 0): pixel offsets are tiny relative to it
+            mexp = rng.randint(10, 20)
+            o = [Fraction(v) for v in c["origin"]]
+            i = rng.randrange(2)
+            o[i] += Fraction(rng.choice([-1, 1]) * (1 << mexp))
+            if rng.random() < 0.4:
+                o[1 - i] += Fraction(rng.choice([-1, 1]) * (1 << rng.randint(10, mexp)))
+            c["origin"] = qlist(o)
+            ext = max(abs(_f(o[0])) + mj["h"] / 2.0 * _f(c["pixel_scales"][0]),
+                      abs(_f(o[1])) + mj["w"] / 2.0 * _f(c["pixel_scales"][1]))
+            bound_uv(ext)
+        elif style == "uv_repeat" and len(c["uv"]) >= 2:   # nearly repeated baseline
+            i, j = rng.sample(range(len(c["uv"])), 2)
+            t = tw(rng.choice([20, 26]))
+            c["uv"][j] = qlist([Fraction(c["uv"][i][0]) * t, Fraction(c["uv"][i][1]) * t])
+        elif style == "image_uniform" and c["image"]:
+            v0 = gen.pos_dyadic(rng, 1, 4, 2)
+            e = rng.choice([20, 30, 40])
+            c["image"] = qlist([v0 * tw(e, rng.randint(0, 3)) for _ in c["image"]])
+            c["feed"]["image"] = "float"
+        elif style == "noise_uniform":
+            s0, e = gen.pos_dyadic(rng, 1, 4, 2), rng.choice([20, 30, 40])
+            if rng.random() < 0.5:      # uniform to 2^-e in both parts, the two parts clearly different
+                s1 = gen.pos_dyadic(rng, 1, 4, 2)
+                c["noise"] = [qlist([s0 * tw(e, rng.randint(0, 3)), s1 * tw(e, rng.randint(0, 3))]) for _ in c["noise"]]
+            else:
+                c["noise"] = [qlist([s0 * tw(e, rng.randint(0, 3)), s0 * tw(e, rng.randint(0, 3))]) for _ in c["noise"]]
+        elif style == "noise_reim":    # real and imaginary noise nearly (not exactly) equal, baseline by baseline
+            e = rng.choice([20, 30])
+            c["noise"] = [qlist([Fraction(a), Fraction(a) * tw(e, rng.choice([-1, 1]))]) for a, _ in c["noise"]]
+        c["tag"] = "near_" + style + ("_neq" if neq else "")
+        return c
+
+    # ------------------------------------------------------------------ R5-C: containers / layouts / dtypes
+    MASK_FEEDS = ("list", "F", "T", "strided", "neg", "readonly", "window", "invert", "all_false", "from_mask",
+                  "from_mask_other", "from_mask_default_origin+explicit")
+    MASK_FLAGS = ("scalar_scale", "int_scales", "int_origin")
+
+    def _layout_case(self, rng):
+        r = rng.random()
+        if r < 0.55:
+            h, w_ = rng.randint(1, 5), rng.randint(1, 5)
+            m, _ = gen.random_mask(rng, h, w_)
+            if rng.random() < 0.15:
+                m = gen.full(h, w_, False)
+            c = self._transformer_case(rng, m, "layout")
+        elif r < 0.7:
+            c = self._util_case(rng, "layout")
+        else:
+            c = self._normal_case(rng, self._small_mask(rng, 4), "layout")
+        feed = c["feed"]
+        ints = c["tag"].endswith("_int")
+        what = []
+
+        def pick(name, p=0.5):
+            if rng.random() < p:
+                what.append(name)
+                return True
+            return False
+
+        uv_int = all(Fraction(a).denominator == 1 and Fraction(b).denominator == 1 for a, b in c["uv"])
+        if pick("uv", 0.6):
+            feed["uv_layout"] = rng.choice(LAYOUTS_2D)
+            feed["uv_dtype"] = rng.choice(["float", "float32"] + (["int64", "int32"] if uv_int else []))
+        mk = (feed.get("M") or "float")
+        if pick("M", 0.6):
+            if rng.random() < 0.3 and (ints or c["kind"] == "normal_eq"):
+                mk = rng.choice(["int32", "int64"])      # falls back to float64 when the entries are not integral
+            feed["M"] = mk.partition("|")[0] + "|" + rng.choice(LAYOUTS_2D)
+        if c["kind"] != "normal_eq":
+            if feed.get("image") in ("float", "float32", "int64") and pick("image", 0.6):
+                if ints and rng.random() < 0.3:
+                    feed["image"] = "int32"
+                lays = list(LAYOUTS_1D)
+                if c["kind"] == "transformer":
+                    lays += ["native:C", "native:F", "native:strided", "native:readonly", "native_list", "from_array2d"]
+                feed["image_layout"] = rng.choice(lays)
+            if c["kind"] == "util":
+                if pick("grid", 0.4):
+                    feed["grid_layout"] = rng.choice(LAYOUTS_2D)
+                if pick("vis2", 0.4):
+                    feed["vis2_layout"] = rng.choice(LAYOUTS_2D)
+        if c["kind"] != "util":
+            if pick("vis", 0.6):
+                base = rng.choice(["complex", "pairs", "complex64"])
+                feed["vis"] = base + "|" + rng.choice(LAYOUTS_2D if base == "pairs" else LAYOUTS_1D)
+            if c["kind"] == "normal_eq" and pick("noise", 0.4):
+                base = rng.choice(["complex", "pairs", "complex64", "list"])
+                feed["noise_vis"] = base + ("|" + rng.choice(LAYOUTS_2D if base == "pairs" else LAYOUTS_1D)
+                                            if base != "list" else "")
+            if pick("mask", 0.6):
+                mf = rng.choice(self.MASK_FEEDS)
+                if mf == "all_false" and "1" in c["mask"]["bits"]:
+                    mf = "list"
+                if mf.startswith("from_mask_default_origin"):
+                    c["origin"] = ["0", "0"]
+                for fl in self.MASK_FLAGS:
+                    if rng.random() < 0.25:
+                        mf += "+" + fl
+                        if fl == "scalar_scale":
+                            c["pixel_scales"] = [c["pixel_scales"][0]] * 2
+                        elif fl == "int_scales":
+                            c["pixel_scales"] = qlist([Fraction(rng.randint(1, 3)), Fraction(rng.randint(1, 3))])
+                        elif fl == "int_origin" and "default_origin" not in mf:
+                            c["origin"] = qlist([Fraction(rng.randint(-3, 3)), Fraction(rng.randint(-3, 3))])
+                feed["mask"] = mf
+        if not what:
+            feed["uv_layout"] = "F"
+            what.append("uv")
+        c["tag"] = "layout_" + c["kind"] + "_" + "+".join(what[:2])
+        return c
+
+    # ------------------------------------------------------------------ R5-F: rarely combined options
+    def _settings_options(self):
+        """{name: [non-default and "set but falsy" values]} from the constructor signature of SettingsInversion
+        (introspected: an option added later is crossed automatically)"""
+        import inspect
+
+        aa = load_autoarray()
+        out = {}
+        for name, prm in inspect.signature(aa.SettingsInversion.__init__).parameters.items():
+            if name in ("self", "use_w_tilde", "use_linear_operators", "no_regularization_add_to_curvature_diag_value"):
+                continue    # they select another formalism (out of scope) / are the quantity the world itself fixes
+            d = prm.default
+            if prm.kind not in (prm.POSITIONAL_OR_KEYWORD, prm.KEYWORD_ONLY) or d is inspect.Parameter.empty:
+                continue
+            ann = str(prm.annotation)
+            if isinstance(d, bool):
+                vals = [not d]
+            elif d is None and "bool" in ann:
+                vals = [True, False]
+            elif isinstance(d, int):
+                vals = [0, d + 1]
+            elif isinstance(d, float):
+                vals = [0.0, d * 0.5]
+            elif d is None:
+                vals = [0, 0.0, 1, 0.5]
+            else:
+                continue
+            out[name] = vals
+        return out
+
+    def _opts_cases(self, rng, n):
+        """pairwise crossing of the options (each value of one with each value of another), sampled; the diagonal
+        value (explicit incl. 0.0 / default / default passed as None) and the route are crossed with all of them"""
+        opts = self._settings_options()
+        names = sorted(opts)
+        pairs = [(a, va, b, vb) for i, a in enumerate(names) for b in names[i + 1:] for va in opts[a] for vb in opts[b]]
+        rng.shuffle(pairs)
+        singles = [(a, va) for a in names for va in opts[a]]
+        todo = [dict([s]) for s in singles] + [{a: va, b: vb} for a, va, b, vb in pairs]
+        for kw in todo[:n]:
+            c = self._normal_case(rng, self._small_mask(rng, 3), "opts")
+            c["feed"]["settings_kw"] = kw
+            if c["via_factory"] and rng.random() < 0.5:
+                c["feed"]["settings_kw"] = {**kw, "use_linear_operators": rng.choice([False, 0])}
+            if rng.random() < 0.4:
+                c["feed"]["inv_kw"] = {"run_time_dict": rng.choice(["empty", "none"]),
+                                       **({"preloads": "fresh"} if rng.random() < 0.5 else {})}
+            if c["default_settings"] and rng.random() < 0.4:
+                c["feed"]["diag_none_kw"] = True
+            c["feed"]["preload_vals"] = rng.choice(["bool", "np", "int"])
+            c["tag"] = "opts_n_" + "+".join(sorted(kw))[:60]
+            yield c
+
+    def _opts_transformer_case(self, rng):
+        h, w_ = rng.randint(1, 4), rng.randint(1, 4)
+        m, _ = gen.random_mask(rng, h, w_)
+        c = self._transformer_case(rng, m, "opts")
+        c["feed"]["preload_vals"] = rng.choice(["np", "int", "bool"])
+        c["feed"]["preload_kw"] = "explicit"
+        c["feed"]["adjoint"] = rng.choice(["false", "zero", "none", "true", "np_false"])
+        if rng.random() < 0.5:
+            c["feed"]["preload_order_rev"] = True
+        if rng.random() < 0.5:
+            o = list(self.READS_T)
+            rng.shuffle(o)
+            c["feed"]["read_order"] = o
+        c["tag"] = "opts_t_" + c["feed"]["preload_vals"] + "_adj_" + c["feed"]["adjoint"]
+        return c
+
+    # ------------------------------------------------------------------ R5-B: ownership histories
+    def _own_case(self, rng):
+        import copy as _copy
+
+        r = rng.random()
+        if r < 0.5:
+            w = self._transformer_case(rng, self._small_mask(rng, 4), "w", k=rng.randint(1, 4), c=rng.randint(1, 2))
+        elif r < 0.65:
+            w = self._util_case(rng, "w")
+        else:
+            w = self._normal_case(rng, self._small_mask(rng, 3), "w")
+        w = {k: v for k, v in w.items() if k != "tag"}
+        worlds = [w]
+        rounds = [0, 0, 0]
+        if rng.random() < 0.4:       # another world of the same shapes in between; then the first one again
+            w2 = _copy.deepcopy(w)
+            bump = lambda v: q(Fraction(v) + Fraction(rng.randint(1, 8), 4))
+            if w["kind"] == "normal_eq":
+                w2["data"] = [[bump(a), bump(b)] for a, b in w["data"]]
+                for o in w2["objs"]:
+                    o["M"] = [[bump(v) for v in r_] for r_ in o["M"]]
+            else:
+                w2["image"] = [bump(v) for v in w["image"]]
+                w2["vis"] = [[bump(a), bump(b)] for a, b in w["vis"]]
+                w2["M"] = [[bump(v) for v in r_] for r_ in w["M"]]
+            for key in ("image", "M"):
+                if w2["feed"].get(key) in ("int64", "pyint_list"):
+                    w2["feed"][key] = "float"
+            worlds.append(w2)
+            rounds = rng.choice([[0, 1, 0], [0, 1, 0, 1], [0, 0, 1, 0]])
+        return {"tag": "own_" + w["kind"] + ("_2w" if len(worlds) > 1 else ""), "kind": "own", "worlds": worlds,
+                "rounds": rounds, "scribble": rng.choice(["nan", "add", "neg"])}
+
+    _salt = 0
+
+    def _own_worlds(self, case):
+        """the worlds of an ownership history.  A SHRUNK candidate carries a `salt` that moves every world a little
+        (baselines x (1 + salt/256), first entries + salt/64): a process-wide memo left behind by an earlier attempt
+        of the shrinker then holds nothing for it, so the candidate behaves in this long-lived process as it will in
+        the fresh process of a replay."""
+        salt = case.get("salt", 0)
+        if not salt:
+            return case["worlds"]
+        f, d = Fraction(256 + salt, 256), Fraction(salt, 64)
+        out = []
+        for w in case["worlds"]:
+            w2 = dict(w)
+            feed = dict(w.get("feed") or {})
+            w2["uv"] = [qlist([Fraction(a) * f, Fraction(b) * f]) for a, b in w["uv"]]
+            feed["uv_dtype"] = "float"
+
+            def bump(rows):
+                rows = [list(r) for r in rows]
+                if rows and rows[0]:
+                    rows[0][0] = q(Fraction(rows[0][0]) + d)
+                return rows
+
+            if w["kind"] == "normal_eq":
+                w2["objs"] = [{**o, "M": bump(o["M"])} for o in w["objs"]]
+                w2["data"] = bump(w["data"])
+            else:
+                w2["M"] = bump(w["M"])
+                w2["vis"] = bump(w["vis"])
+                w2["image"] = bump([w["image"]])[0]
+                if feed.get("image") in ("int64", "int32", "pyint_list"):
+                    feed["image"] = "float"
+            if (feed.get("M") or "float").partition("|")[0] in ("int64", "int32"):
+                feed["M"] = "float"
+            w2["feed"] = feed
+            out.append(w2)
+        return out
+
+    def _run_own(self, case):
+        out = []
+        worlds = self._own_worlds(case)
+        for i in case["rounds"]:
+            keep = []
+            out.append(self._run_plain(worlds[i], keep=keep))
+            _scribble_arrays(keep, case["scribble"])
+        return {"rounds": out}
+
+    def _shrink_own(self, case):
+        for c in self._shrink_own0(case):
+            C13._salt += 1
+            yield {**c, "salt": C13._salt}
+
+    def _shrink_own0(self, case):
+        rounds = case["rounds"]
+        if len(rounds) > 2:
+            yield {**case, "rounds": rounds[:-1]}
+            yield {**case, "rounds": rounds[1:]}
+        if len(case["worlds"]) > 1 and 1 in rounds:
+            yield {**case, "rounds": [0 for _ in rounds]}
+        if case["scribble"] != "add":
+            yield {**case, "scribble": "add"}
+        w = case["worlds"][0]
+        if w["kind"] == "transformer" and len(case["worlds"]) == 1:
+            for w2 in self._shrink_plain(w):
+                yield {**case, "worlds": [w2]}
+
+    # ------------------------------------------------------------------ R5-D: configuration histories
+    CONF_VALUES = (Fraction(1, 1024), Fraction(1, 2), Fraction(3), Fraction(0), Fraction(1, 1 << 40),
+                   Fraction(1.0e-3), Fraction(float(Fraction(1.0e-3) * TWIN)), Fraction(5, 4))
+
+    def _config_case(self, rng):
+        w = self._normal_case(rng, self._small_mask(rng, 3), "w")
+        w = {k: v for k, v in w.items() if k != "tag"}
+        if not any(not o["has_reg"] for o in w["objs"]):
+            w["objs"][rng.randrange(len(w["objs"]))]["has_reg"] = False     # the diagonal term must be visible
+        steps = []
+        for i in range(rng.randint(3, 5)):
+            st = {}
+            # step 0: the pinned default configuration with default settings, so that the history is self-contained
+            # (a value cached at the first use of the library is cached HERE, in a replay as in the long run)
+            if i and rng.random() < 0.85:
+                st["conf"] = q(rng.choice(self.CONF_VALUES))
+            choices = ["fresh_default", "fresh_default", "fresh_explicit", "fresh_none_kw", "omitted"]
+            if steps:
+                choices += ["reuse", "reuse"]
+            st["settings"] = rng.choice(choices) if i else rng.choice(["fresh_default", "fresh_default", "omitted"])
+            if st["settings"] == "fresh_explicit":
+                st["explicit"] = q(rng.choice(self.CONF_VALUES))
+            st["via_factory"] = rng.random() < 0.4 and st["settings"] != "omitted"
+            st["dataset"] = "reuse" if (steps and rng.random() < 0.6) else "new"
+            if rng.random() < 0.3:
+                st["decoy"] = rng.sample(sorted(DECOY_CONF), rng.randint(1, 2))
+            steps.append(st)
+        return {"tag": "config_" + steps[-1]["settings"], "kind": "config", "world": w, "steps": steps}
+
+    def _config_diags(self, case):
+        """the diagonal value in force at each step: the explicit argument of the settings object in use, else the
+        configuration value at call time"""
+        conf_v, cur, out = q(1.0e-3), None, []
+        for st in case["steps"]:
+            if "conf" in st:
+                conf_v = st["conf"]
+            if st["settings"] == "fresh_explicit":
+                cur = st["explicit"]
+            elif st["settings"] != "reuse":
+                cur = None
+            out.append(cur if cur is not None else conf_v)
+        return out
+
+    def _run_config(self, case):
+        from autoarray.inversion.inversion.dataset_interface import DatasetInterface
+
+        aa = load_autoarray()
+        w = case["world"]
+        out = []
+        ds = {}
+        settings = None
+        with _Conf() as cf:
+            for st in case["steps"]:
+                if "conf" in st:
+                    cf.set(CONF_DIAG, _f(st["conf"]))
+                for name in st.get("decoy") or []:
+                    cf.set(*DECOY_CONF[name])
+                vf = bool(st["via_factory"])
+                if st["dataset"] == "new" or vf not in ds:
+                    mask = self._mask(aa, w)
+                    data = self._vis_in(aa, w["data"], "complex")
+                    noise = self._vis_in(aa, w["noise"], "complex", aa.VisibilitiesNoiseMap)
+                    uv = self._uv_in({**w, "feed": {}})
+                    if vf:
+                        d = aa.Interferometer(data=data, noise_map=noise, uv_wavelengths=uv, real_space_mask=mask,
+                                              transformer_class=aa.TransformerDFT)
+                        if d.transformer.preload_transform != w["preload"]:
+                            d.transformer = aa.TransformerDFT(uv_wavelengths=uv, real_space_mask=mask,
+                                                              preload_transform=w["preload"])
+                    else:
+                        t = aa.TransformerDFT(uv_wavelengths=uv, real_space_mask=mask, preload_transform=w["preload"])
+                        d = DatasetInterface(data=data, noise_map=noise, transformer=t)
+                    ds[vf] = d
+                objs = []
+                for o in w["objs"]:
+                    M = self._matrix_in(o["M"], o["n_cols"], "float")
+                    reg = aa.m.MockRegularization(regularization_matrix=np.eye(o["n_cols"])) if o["has_reg"] else None
+                    if o["cls"] == "mapper":
+                        objs.append(aa.m.MockMapper(mapping_matrix=M, parameters=o["n_cols"], regularization=reg,
+                                                    edge_pixel_list=[]))
+                    else:
+                        objs.append(aa.m.MockLinearObj(mapping_matrix=M, parameters=o["n_cols"], regularization=reg))
+                how = st["settings"]
+                if how == "reuse" and settings is None:      # the previous step passed no settings object: again none
+                    how = "omitted"
+                if how == "fresh_default":
+                    settings = aa.SettingsInversion(use_w_tilde=False)
+                elif how == "fresh_none_kw":
+                    settings = aa.SettingsInversion(use_w_tilde=False, no_regularization_add_to_curvature_diag_value=None)
+                elif how == "fresh_explicit":
+                    settings = aa.SettingsInversion(use_w_tilde=False,
+                                                    no_regularization_add_to_curvature_diag_value=_f(st["explicit"]))
+                elif how == "omitted":
+                    settings = None
+                if how == "omitted":
+                    vf = False
+                    if vf not in ds:
+                        ds[vf] = DatasetInterface(data=ds[True].data, noise_map=ds[True].noise_map,
+                                                  transformer=ds[True].transformer)
+                    inv = aa.InversionInterferometerMapping(dataset=ds[vf], linear_obj_list=objs)
+                elif vf:
+                    inv = aa.Inversion(dataset=ds[vf], linear_obj_list=objs, settings=settings)
+                else:
+                    inv = aa.InversionInterferometerMapping(dataset=ds[vf], linear_obj_list=objs, settings=settings)
+                out.append(self._read_normal(inv))
+        return {"steps": out}
+
+    def _config_world(self, case, i, diag):
+        return {**case["world"], "default_settings": False, "diag_value": diag}
+
+    def _shrink_config(self, case):
+        steps = case["steps"]
+        if len(steps) > 1:
+            yield {**case, "steps": steps[:-1]}
+            for j in range(1, len(steps) - 1):       # (step 0, the read under the default configuration, stays)
+                if steps[j + 1]["settings"] != "reuse":
+                    yield {**case, "steps": steps[:j] + steps[j + 1:]}
+        for j, st in enumerate(steps):
+            for key in ("decoy",):
+                if key in st:
+                    yield {**case, "steps": steps[:j] + [{k: v for k, v in st.items() if k != key}] + steps[j + 1:]}
+            if st.get("via_factory"):
+                yield {**case, "steps": steps[:j] + [{**st, "via_factory": False}] + steps[j + 1:]}
+
+    # ------------------------------------------------------------------ R5-E: always-on mid / large sizes
+    def _always_large(self, tier, rng):
+        """one or two cases per run beyond 2^15 / 2^16 elements in a size dimension (oracle-only, like the
+        constant-directed stream, but not gated on a new constant in the source)"""
+        r2 = random.Random(rng.randrange(1 << 31))
+        specs = []
+        s = self._large_spec("frame", 256 * 257 + (0 if r2.random() < 0.5 else 257), 65536, r2)   # > 2^16 frame pixels
+        specs.append(s)
+        s = self._large_spec("baselines", 32768 + r2.randint(1, 40), 32768, r2)
+        s.update(n=1, c=1, h=1, w=2)
+        specs.append(s)
+        if tier != "quick":
+            s = self._large_spec("unmasked", 32768 + r2.randint(1, 40), 32768, r2)
+            s.update(k=1, c=1)
+            specs.append(s)
+            s = self._large_spec("columns", 65536 + r2.randint(1, 40), 65536, r2)
+            s.update(n=1, k=1, h=1, w=2)
+            specs.append(s)
+            s = self._large_spec("neq_baselines", 32768 + r2.randint(1, 40), 32768, r2)
+            s.update(n=1, h=1, w=2, cols=[1], c=1)
+            specs.append(s)
+        for s in specs:
+            s["tag"] = "always_" + s["tag"]
+            yield s
+
+    def _generate_r5(self, tier, rng):
+        quick = tier == "quick"
+        for i in range(300 if quick else 3000):
+            yield self._decades_case(rng)
+        for i in range(120 if quick else 1200):
+            yield self._decades_case(rng, ext=True)
+        for i in range(180 if quick else 1800):
+            yield self._near_case(rng)
+        for i in range(320 if quick else 3200):
+            yield self._layout_case(rng)
+        yield from self._opts_cases(rng, 140 if quick else 4000)
+        for i in range(60 if quick else 600):
+            yield self._opts_transformer_case(rng)
+        for i in range(160 if quick else 1600):
+            yield self._own_case(rng)
+        for i in range(140 if quick else 1400):
+            yield self._config_case(rng)
+        yield from self._always_large(tier, rng)
 
     # ------------------------------------------------------------------ histories: generation
     T_FAULTS = ("short_vis", "long_image", "tall_M", "bad_ctor")
